@@ -97,6 +97,29 @@ class SimFile:
 	def tell(self):
 		return self.pos
 
+	def readinto(self, buf):
+		data = self.read(len(buf))
+		buf[:len(data)] = data
+		return len(data)
+
+	def readable(self):
+		return self.readable_
+
+	def writable(self):
+		return self.writable_
+
+	def seekable(self):
+		return True
+
+	def truncate(self, size=None):
+		b = self._buf()
+		size = self.pos if size is None else size
+		del b[size:]
+		return size
+
+	def fileno(self):
+		raise OSError("SimFile has no file descriptor")
+
 	def flush(self):
 		pass
 
@@ -255,7 +278,7 @@ class DumpEngine:
 			ops.append(self._gen_read(rng, n))
 		cfg = {"profile": profile, "open": rng.choice(["path", "fileobj", "fileobj-w+b"]),
 			"cuts": "all" if (size <= (12 if thorough else 5)) else "sample",
-			"cut_seed": rng.randrange(1 << 30), "mirror": rng.random() < 0.05}
+			"cut_seed": rng.randrange(1 << 30)}
 		if profile == "rot":
 			cfg["rot"] = {"kind": rng.choice(["bitflip", "garbage", "hugelen", "truncate+flip", "tag"]),
 				"seed": rng.randrange(1 << 30), "n": rng.choice([1, 1, 2, 8, 64])}
@@ -278,13 +301,16 @@ class DumpEngine:
 				p = json.loads(json.dumps(plan))
 				p["ops"][i]["msgs"] = op["msgs"][:1]
 				yield p
-		if plan["config"].get("mirror"):
-			p = json.loads(json.dumps(plan))
-			p["config"]["mirror"] = False
-			yield p
 
 	# ------------------------------------------------------------------ execute -------
 	def execute(self, plan, prop, choices=None):
+		"""Storage: captures opened BY PATH live on real files in a private scratch directory
+		(whatever way the code opens a path — open, io.open, pathlib, os.open — works), captures
+		handed over as FILE OBJECTS live on the simulated disk.  The content is carried over at
+		every (re)open, so one history can mix both."""
+		import gc
+		import shutil
+		import tempfile
 		dd = toolkit.tk("data_dump")
 		cfg = plan["config"]
 		res = Result()
@@ -292,7 +318,9 @@ class DumpEngine:
 		log = []
 		viols = []
 		probes = res.probes
-		path = "/sim/capture.bin"
+		tmpdir = tempfile.mkdtemp(prefix="vp-dump.")
+		path = os.path.join(tmpdir, "capture.bin")
+		simkey = "/sim/capture.bin"
 
 		def bad(clause, owner, **detail):
 			if len(viols) < 4:
@@ -302,33 +330,56 @@ class DumpEngine:
 			probes[k] = probes.get(k, 0) + n
 
 		toolkit.capture_logs(lambda lvl, fn, msg: None)
-		old_open = dd.__dict__.get("open")
-		dd.open = disk.open
+		st = {"f": None, "how": None, "content": b"", "fresh": True}
+
+		def close_current():
+			"""Let go of the current reader/writer and pick up what it left on its storage."""
+			f, how = st["f"], st["how"]
+			st["f"] = None
+			if f is None:
+				return
+			if how == "path":
+				del f
+				with open(path, "rb") as fh:
+					st["content"] = fh.read()
+			else:
+				st["content"] = bytes(disk.files[simkey])
 
 		def opener(how):
+			close_current()
+			st["how"] = how
 			if how == "path":
-				return dd.DATADumpFile(path)
-			if how == "fileobj-w+b":  # what the repository's own tests pass in (a TemporaryFile)
-				if path not in disk.files:
-					return dd.DATADumpFile(disk.open(path, "w+b"))
-				return dd.DATADumpFile(disk.open(path, "r+b"))
-			return dd.DATADumpFile(disk.open(path, "a+b"))
+				with open(path, "wb") as fh:
+					fh.write(st["content"])
+				st["f"] = dd.DATADumpFile(path)
+			else:
+				disk.files[simkey] = bytearray(st["content"])
+				if how == "fileobj-w+b":  # what the repository's own tests pass in (a TemporaryFile)
+					mode = "w+b" if st["fresh"] else "r+b"
+				else:
+					mode = "a+b"
+				st["f"] = dd.DATADumpFile(disk.open(simkey, mode))
+			st["fresh"] = False
+			return st["f"]
 
 		model = []  # (fields, end_offset)
-		unattributed = []  # byte ranges whose inner record boundaries could not be measured
-
-		def flen():
-			return len(disk.files[path])
+		unattributed = []  # byte ranges whose inner record boundaries could not be confirmed
+		sizes = {}
 
 		def measure(d):
 			"""Size of one stored record, measured on a scratch file with the real writer."""
-			sp = "/sim/measure.bin"
-			disk.files[sp] = bytearray()
-			g = dd.DATADumpFile(disk.open(sp, "a+b"))
-			g.append_msg(build_msg(d))
-			g.f.close()
-			return len(disk.files[sp])
+			k = json.dumps(d, sort_keys=True)
+			if k not in sizes:
+				sp = "/sim/measure.bin"
+				disk.files[sp] = bytearray()
+				g = dd.DATADumpFile(disk.open(sp, "a+b"))
+				g.append_msg(build_msg(d))
+				del g
+				sizes[k] = len(disk.files[sp])
+			return sizes[k]
 
+		end = 0
+		confirmed = 0  # file length up to which the measured boundaries were confirmed
 		try:
 			f = opener(cfg["open"])
 			for op in plan["ops"]:
@@ -336,27 +387,21 @@ class DumpEngine:
 				try:
 					if o == "append":
 						f.append_msg(build_msg(op["msg"]))
-						model.append((fields_of_desc(op["msg"]), flen()))
+						end += measure(op["msg"])
+						model.append((fields_of_desc(op["msg"]), end))
 					elif o == "append_all":
-						before = flen()
 						f.append_all([build_msg(d) for d in op["msgs"]])
-						sizes = [measure(d) for d in op["msgs"]]
-						if before + sum(sizes) == flen():
-							e = before
-							for d, sz in zip(op["msgs"], sizes):
-								e += sz
-								model.append((fields_of_desc(d), e))
-						else:  # cannot attribute inner boundaries: only judge cuts outside the range
-							for d in op["msgs"]:
-								model.append((fields_of_desc(d), flen()))
-							unattributed.append((before, flen()))
+						for d in op["msgs"]:
+							end += measure(d)
+							model.append((fields_of_desc(d), end))
 					elif o == "reopen":
-						try:
-							f.f.close()
-						except Exception:
-							pass
+						f = None
 						f = opener(op["how"])
 						probe("reopen")
+						if len(st["content"]) == end:
+							confirmed = end
+						else:
+							unattributed.append((confirmed, max(end, len(st["content"]))))
 					elif o == "read_all":
 						self._check_all(f, model, None, None, bad, "live")
 					elif o == "read_idx":
@@ -367,22 +412,23 @@ class DumpEngine:
 					bad("C15.raised", "C15", op=o, exc=type(e).__name__, msg=str(e)[:120])
 				if viols:
 					break
-			data = bytes(disk.files[path])
+			f = None
+			close_current()
+			data = st["content"]
+			if len(data) != end and not viols:
+				# the writer's record sizes are not what it produces alone: only whole-file reads
+				# and the untouched prefix can be judged
+				unattributed.append((confirmed, max(end, len(data))))
+				model = [(m, e if e <= confirmed else len(data)) for m, e in model]
 			log.append(("final", len(data), len(model)))
 			if not viols and cfg["profile"] == "cut":
-				self._crash_cuts(dd, disk, data, model, cfg, bad, probe, log, res, viols, unattributed)
+				self._crash_cuts(dd, disk, data, model, cfg, bad, probe, log, res, viols, unattributed, tmpdir)
 			elif not viols and cfg["profile"] == "rot":
 				self._rot(dd, disk, data, model, cfg, bad, probe, log, res)
-			if not viols and cfg.get("mirror"):
-				self._mirror(dd, old_open, data, model, bad, probe)
 		finally:
-			if old_open is None:
-				try:
-					del dd.open
-				except AttributeError:
-					pass
-			else:
-				dd.open = old_open
+			st["f"] = None
+			f = None
+			shutil.rmtree(tmpdir, ignore_errors=True)
 			toolkit.release_logs()
 		res.violations = viols
 		res.steps = sum(disk.stats.values())
@@ -457,7 +503,7 @@ class DumpEngine:
 			start = max(start, e)
 		return sorted(o for o in offs if 0 <= o <= n), False
 
-	def _crash_cuts(self, dd, disk, data, model, cfg, bad, probe, log, res, viols, unattributed=()):
+	def _crash_cuts(self, dd, disk, data, model, cfg, bad, probe, log, res, viols, unattributed=(), tmpdir=None):
 		offs, exhaustive = self._cut_offsets(data, model, cfg)
 		r = random.Random(cfg["cut_seed"] ^ 0x5bd1)
 		nrec = len(model)
@@ -466,8 +512,15 @@ class DumpEngine:
 			if any(a < c < b for a, b in unattributed):
 				continue
 			p = "/sim/cut.bin"
-			disk.files[p] = bytearray(data[:c])
-			f = dd.DATADumpFile(disk.open(p, "a+b") if c % 2 else p)
+			if tmpdir is not None and c % 4 == 0:
+				# re-opened by path: a real file in the scratch directory
+				rp = os.path.join(tmpdir, "cut.bin")
+				with open(rp, "wb") as fh:
+					fh.write(data[:c])
+				f = dd.DATADumpFile(rp)
+			else:
+				disk.files[p] = bytearray(data[:c])
+				f = dd.DATADumpFile(disk.open(p, "a+b"))
 			res.faults["crash-cut"] = res.faults.get("crash-cut", 0) + 1
 			nexp = sum(1 for _m, e in model if e <= c)
 			try:
@@ -486,10 +539,7 @@ class DumpEngine:
 			if c not in bounds and c != 0:
 				probe("torn-record")
 			log.append(("cut", c, nexp))
-			try:
-				f.f.close()
-			except Exception:
-				pass
+			f = None
 			if viols:
 				break
 		if exhaustive:
@@ -535,31 +585,7 @@ class DumpEngine:
 					bad("C14.capture-read-raised", "C14", call=what, kind=kind, exc=type(e).__name__,
 						msg=str(e)[:100], signature="C14.capture-read-raised/%s" % type(e).__name__)
 					return
-			f.f.close()
-
-	# -- SimFile vs. a real file -----------------------------------------------------------
-	def _mirror(self, dd, real_open, data, model, bad, probe):
-		import tempfile
-		import builtins
-		d = tempfile.mkdtemp(prefix="vp-dump.")
-		p = os.path.join(d, "capture.bin")
-		saved = dd.__dict__.get("open")
-		dd.open = builtins.open
-		try:
-			cut = len(data) - (len(data) // 3 if len(data) > 10 else 0)
-			with builtins.open(p, "wb") as fh:
-				fh.write(data[:cut])
-			f = dd.DATADumpFile(p)
-			self._check_all(f, model, None, None, lambda c, o, **kw: bad("C15.mirror-" + c.split(".")[1], o, **kw), "real-file", upto=cut)
-			f.f.close()
-			probe("real-file-mirror")
-		finally:
-			dd.open = saved
-			try:
-				os.unlink(p)
-				os.rmdir(d)
-			except OSError:
-				pass
+			f = None
 
 
 ENGINE = DumpEngine()
